@@ -620,7 +620,7 @@ def matched_pair(fn: Fn, c, modules_param: str, arch_param: str, membership_of: 
                 return Matched(False, f"the pattern test is `{show(rt.call)}`, not re.match(<regex filter>.identifier, <module name>)")
             test = True
             continue
-        if not pol and c.acc and isinstance(lit, ast.Compare) and isinstance(lit.ops[0], ast.In) and dotted(lit.comparators[0]) == c.acc and c.elt is not None and norm(lit.left) == norm(c.elt):
+        if not pol and c.kind == "add" and c.acc and isinstance(lit, ast.Compare) and isinstance(lit.ops[0], ast.In) and dotted(lit.comparators[0]) == c.acc and c.elt is not None and norm(lit.left) == norm(c.elt):
             continue  # `if e not in acc: acc.append(e)` - duplicates are not added twice
         if once_per_module and pol and _first_time_flag(fn, lit):
             continue  # added for the first matching pattern of a module only: the same *set* of modules
@@ -1045,18 +1045,20 @@ def _self_sinks(view: FuncInfo) -> list[tuple[ast.AST, ast.AST]]:
     return out
 
 
-def run_r3(repo: Repo, res: Result) -> None:
+def _is_str_test(e: ast.AST, param: str) -> bool:
+    return isinstance(e, ast.Call) and isinstance(e.func, ast.Name) and e.func.id == "isinstance" and len(e.args) == 2 and isinstance(e.args[0], ast.Name) and e.args[0].id == param and isinstance(e.args[1], ast.Name) and e.args[1].id == "str"
+
+
+def _stored_filters(repo: Repo, res: Result, m: FuncInfo, what: str, translate: bool) -> None:
+    """The public method `m` of Rule stores {ModuleNameRegexFilter(name=t(n)) | n in names} (names = the parameter, or [parameter]
+    if it is a str), unfiltered, on every path; t = convert_partial_match_to_regex if `translate` else the identity."""
     T = types_of(repo)
-    rule = repo.cls(RULE, "Rule")
-    m = rule.methods.get("have_name_containing")
-    if m is None:
-        res.observe("Rule.have_name_containing no longer exists (deprecated form removed): C11.R3 not applicable")
-        return
     view = inline_view(repo, m, T, allow=_allow_r3)
     fn = Fn(repo, view)
     co = Collections(fn)
     param = view.param_names[1]
-    key = f"{m.relpath}::{m.qualname}::partial name -> regex filter"
+    key = f"{m.relpath}::{m.qualname}::{what} -> regex filter"
+    want = f"ModuleNameRegexFilter(name={'convert_partial_match_to_regex(<name>)' if translate else '<regex>'})"
     relevant: list[tuple[ast.AST, list]] = []
     unknown: list[str] = []
     for stmt, value in _self_sinks(view):
@@ -1084,26 +1086,45 @@ def run_r3(repo: Repo, res: Result) -> None:
                 bad.append(f"`{norm(stmt, 70)}`: elements of `{param}` are unpacked")
                 continue
             var = c.binders[0].names[0] if c.binders else param
-            for e, pol in c.conds:
-                if not c.binders and isinstance(e, ast.Call) and isinstance(e.func, ast.Name) and e.func.id == "isinstance":
+            # the parameter is iterated unless it is a str, and wrapped into a one-element list only if it is one
+            for e, pol in flatten(list(c.conds) + [x for x in c.context if _is_str_test(x[0], param)]):
+                if _is_str_test(e, param):
+                    if pol == bool(c.binders):
+                        dropped.append(f"`{param}` is {'iterated although it is a str' if c.binders else 'taken as a single name although it is not a str'} (`{'' if pol else 'not '}{show(e)}`)")
                     continue
                 dropped.append(f"a filter is only created if `{'' if pol else 'not '}{show(e)}`")
-            elt = c.elt
+            elt = fn.expand(c.elt) if c.elt is not None else None  # factories that only delegate
             ok = _ctor_class(fn, elt).endswith(".ModuleNameRegexFilter")
             if ok:
                 arg = _ctor_arg(fn, elt, "name")
-                callee = fn.callee(arg) if isinstance(arg, ast.Call) else None
-                ok = callee is not None and callee.module.name == PARTIAL and callee.name == "convert_partial_match_to_regex" and len(arg.args) + len(arg.keywords) == 1 and dotted([*arg.args, *[k.value for k in arg.keywords]][0]) == var
+                if translate:
+                    callee = fn.callee(arg) if isinstance(arg, ast.Call) else None
+                    ok = callee is not None and callee.module.name == PARTIAL and callee.name == "convert_partial_match_to_regex" and len(arg.args) + len(arg.keywords) == 1 and dotted([*arg.args, *[k.value for k in arg.keywords]][0]) == var
+                else:
+                    ok = isinstance(arg, ast.Name) and arg.id == var
             if not ok:
-                bad.append(f"an element `{var}` of `{param}` becomes `{show(elt)}`, not ModuleNameRegexFilter(name=convert_partial_match_to_regex({var}))")
-    res.add("C11.R3", key, not bad, "each partial name becomes ModuleNameRegexFilter(convert_partial_match_to_regex(name))" if not bad else bad[0] + ": the partial-name form is not the regex filter of its translation", where(view, view.node), kind="flow")
+                bad.append(f"an element `{var}` of `{param}` becomes `{show(elt)}`, not {want.replace('<name>', var).replace('<regex>', var)}")
+    res.add("C11.R3", key, not bad, f"each given {what} becomes {want}" if not bad else bad[0] + (": the partial-name form is not the regex filter of its translation" if translate else ": the regex does not become a regex filter of itself"), where(view, view.node), kind="flow")
     # every given name yields a filter, and the list reaches the rule's configuration on every path
     first = next((c for _, cs in relevant for c in cs if c.node is not None and parent(c.node) is not None), None)
     ctx = guard_formula(view, stmt_of(first.node)) if first is not None else None
     stored = f_or([guard_formula(view, stmt) for stmt, _ in relevant])
     if ctx is not None and not implies(ctx, stored):
         dropped.append("the list of filters is not stored on every path")
-    res.add("C11.R3", f"{m.relpath}::{m.qualname}::one filter per name", not dropped, "every given name yields exactly one filter, which is stored in the rule" if not dropped else dropped[0] + ": not every given name yields a filter", where(view, view.node), kind="structural")
+    res.add("C11.R3", f"{m.relpath}::{m.qualname}::one filter per {what}", not dropped, f"every given {what} yields exactly one filter, which is stored in the rule" if not dropped else dropped[0] + f": not every given {what} yields a filter", where(view, view.node), kind="structural")
+
+
+def run_r3(repo: Repo, res: Result) -> None:
+    rule = repo.cls(RULE, "Rule")
+    m = rule.methods.get("have_name_containing")
+    if m is None:
+        res.observe("Rule.have_name_containing no longer exists (deprecated form removed): C11.R3 not applicable to it")
+    else:
+        _stored_filters(repo, res, m, "partial name", True)
+    hm = rule.methods.get("have_name_matching")
+    if hm is None:
+        raise AnalysisError("Rule.have_name_matching not found")
+    _stored_filters(repo, res, hm, "regex", False)
 
 
 # --------------------------------------------------------------------------------------------------------------- C11.R4
